@@ -8,7 +8,7 @@
     .proto are non-negative; [st_ok]: every bit array in the peer state has exactly the words its
     bits need (true of NewPeerState, preserved by every handler: C18_state_invariant). *)
 From Coq Require Import List ZArith NArith Bool.
-From Kardia Require Import C18.Model C18.ModelFetcher C18.ProofsBits C18.Proofs C18.ProofsNet C18.ProofsFetcher C18.ProofsFetcherDrop C18.ProofsFetcherEmpty C18.ProofsFetcherGood Generated.C18Facts.
+From Kardia Require Import C18.Model C18.ModelFetcher C18.ProofsBits C18.Proofs C18.ProofsNet C18.ProofsFetcher C18.ProofsFetcherDrop C18.ProofsFetcherEmpty C18.ProofsFetcherGood C18.SourceTie Generated.C18Facts.
 Import ListNotations.
 Local Open Scope Z_scope.
 
@@ -244,3 +244,10 @@ Theorem C18_fetcher_index_invariant_partial :
   forall k s e, not_direct e -> GOOD s -> match fstep k s e with FOk s' => GOOD s' | FCrash => True end.
 Proof. exact fstep_GOOD. Qed.
 Print Assumptions C18_fetcher_index_invariant_partial.
+
+(** source tie: the validators, bounds and limits of the model ARE the expressions of the Go source
+    (Generated/C18Source.v, regenerated from /repo by go2coq on every check), on the operands named
+    there; every other translated guard, store and loop header of the anchored code is pinned *)
+Theorem C18_source_tie : C18_source_tie_statement.
+Proof. exact C18_source_tie_proof. Qed.
+Print Assumptions C18_source_tie.
